@@ -40,11 +40,11 @@ type model struct {
 	arrMoved       []bool
 	lastSetOnMoved bool
 	arr            []string // JSON of each element
-	txt  []mChar
-	obj  map[string]string // key -> JSON value
-	cInt int32
-	cLng int64
-	tree []mPara
+	txt            []mChar
+	obj            map[string]string // key -> JSON value
+	cInt           int32
+	cLng           int64
+	tree           []mPara
 }
 
 func newModel() *model {
